@@ -115,7 +115,10 @@ def _audit(event, args):
             if isinstance(p, bytes):
                 p = p.decode("utf8", "replace")
             if p.startswith(w.root):
-                w.audit_counts["open"] = w.audit_counts.get("open", 0) + 1
+                flags = args[2] if len(args) > 2 and isinstance(args[2], int) else 0
+                writing = bool(flags & (os.O_WRONLY | os.O_RDWR | os.O_APPEND | os.O_CREAT | os.O_TRUNC))
+                k = "open" if writing else "open_read"
+                w.audit_counts[k] = w.audit_counts.get(k, 0) + 1
     elif event in ("os.remove", "os.mkdir", "os.rename"):  # os.replace raises os.rename too
         p = args[0]
         try:
@@ -276,7 +279,7 @@ class SimFileIO(io.FileIO):
     def __init__(self, path, mode="r"):
         self._sim_base = _base(path)
         WORLD.point("openat", f"{self._sim_base}:{mode}")
-        WORLD.seam("open", path)
+        WORLD.seam("open" if set(mode) & set("wax+") else "open_read", path)
         super().__init__(path, mode)
 
     def write(self, b):
@@ -440,7 +443,7 @@ class OsProxy:
     # low-level descriptor I/O (os.open / os.write / ...): same scheduling and crash points
     def open(self, path, flags, mode=0o777, *a, **k):
         WORLD.point("openat", f"{_base(path)}:fd")
-        WORLD.seam("open", path)
+        WORLD.seam("open" if flags & (os.O_WRONLY | os.O_RDWR | os.O_APPEND | os.O_CREAT | os.O_TRUNC) else "open_read", path)
         fd = os.open(path, flags, mode, *a, **k)
         WORLD.fds[fd] = _base(path)
         return fd
